@@ -97,7 +97,6 @@ class Hist:
         self.xl = (0, 0)
         self.saved = []       # (kind, xl, cursor set?)
         self.cursor = False
-        self.free = rng.random() < 0.001  # no avoidance of the known finding in this history
 
     def emit(self, s):
         self.ops.append(s)
@@ -134,19 +133,9 @@ class Hist:
         return (self.line(), self.col(), rng.choice([-1, 0, 1, 50]), rng.choice([-2, 0, 1, 50]))
 
     def restore(self):
-        """`restore`; unless this history is one of the few that may trigger the known finding
-        C03/vc_pos_set_not_saved, first bring the cursor's set/unset state back to what it was at the matching
-        `save` (bin/check looks at only a few failing histories per run: a finding that fires in every tenth
-        history would hide everything else; the finding itself is probed by corpus/C03/ on every run)."""
-        if self.saved:
-            k, xl, cur = self.saved[-1]
-            if k == "save" and cur != self.cursor and not self.free:
-                if cur:
-                    self.emit(f"goto {self.line()} {self.col()}")
-                else:
-                    self.emit("ungoto")
-                self.cursor = cur
-                stats["(cursor state re-established before restore)"] += 1
+        """`restore`.  (Before the repair 85271b4 this avoided the trigger of the then known finding
+        vc_pos_set_not_saved in most histories; now every history is free to change the cursor's set/unset
+        state between `save` and `restore`.)"""
         self.emit("restore")
         if self.saved:
             k, xl, cur = self.saved.pop()
